@@ -26,6 +26,8 @@ T = {
     'C16-m1': ('C16', 'styleattrs_to_colorful memoised on (color, bgcolor) only: two tokens sharing colours but differing in bold/italic/underline get the style of the first one rendered in the process (e.g. style friendly: String vs bold String.Escape)', {'C16': 'VIOLATION with input'}),
     'C19-m1': ('C19', 'float literal documents memoised with lru_cache keyed by value: 0.0 == -0.0 share a slot, so whichever zero is printed first in the interpreter decides how both print afterwards', {'C19': 'VIOLATION with history', 'C01': 'VIOLATION with input'}),
     'C20-m1': ('C20', 'register_pretty pops the deferred entry BEFORE writing the registry: a one-statement window in which a concurrent first print finds the printer in neither table and prints the repr (needs a preemption exactly between the two statements)', {'C20': 'VIOLATION with schedule (and the translated program-shape fact flips)'}),
+    'C07-m1': ('C07', 'pretty_datetime takes the three-positional shortcut BEFORE appending tzinfo / fold: a tz-aware (or fold=1) datetime exactly at midnight prints as a naive date-only datetime', {'C07': 'VIOLATION with input (eval oracle); the Stdlib model correspondence differs as well'}),
+    'C12-m1': ('C12', 'FlatChoice.normalize reads both branches of its lazy copy (eager normalisation) to hoist a forced break: containers commented at every nesting level cost 2^depth (list family, linear before)', {'C12': 'VIOLATION with family/parameter (after enforcing the step budget inside the run; before that the check did not terminate in reasonable time)'}),
     'C03-m1': ('C03', 'the dangling comma of a commented one-element tuple is added only in the flat variant: at narrow widths (comment above the element) the 1-tuple prints as a parenthesised expression', {'C03': 'VIOLATION with input', 'C09': 'VIOLATION with input'}),
 }
 
